@@ -19,6 +19,9 @@ type FuncReport struct {
 	Error       string // engine could not process the function (reported as failed obligation #engine)
 	Trivial     int
 	ex          *Exec
+	fn          *ssa.Function
+	final       *State
+	results     []Val
 }
 
 func hasProp(props []string, id string) bool {
@@ -39,7 +42,7 @@ func CheckFunc(P *Program, fn *ssa.Function, c *FuncContract) (rep *FuncReport) 
 	ex.top = fn
 	ex.topC = c
 	ex.curProps = c.Props
-	rep = &FuncReport{Func: ex.fnName(fn), Key: c.Key, ex: ex}
+	rep = &FuncReport{Func: ex.fnName(fn), Key: c.Key, ex: ex, fn: fn}
 	defer func() {
 		if r := recover(); r != nil {
 			if ep, ok := r.(execPanic); ok {
@@ -135,6 +138,8 @@ func CheckFunc(P *Program, fn *ssa.Function, c *FuncContract) (rep *FuncReport) 
 	if err != nil {
 		ex.fail("merging return states: %v", err)
 	}
+	rep.final = final
+	rep.results = results
 	post := &EvalCtx{ex: ex, st: final, old: ex.old, vars: map[string]tv{}, pkgPath: c.PkgPath}
 	for k, v := range vars {
 		post.vars[k] = v
@@ -282,6 +287,12 @@ func (ex *Exec) addFieldInputs(fn *ssa.Function) {
 	for _, prm := range fn.Params {
 		pt, ok := prm.Type().Underlying().(*types.Pointer)
 		if !ok {
+			continue
+		}
+		if isNamed(pt.Elem(), "math/big", "Int") {
+			if _, known := ex.regionSorts["gf:bigval"]; known {
+				ex.inputs["in:"+prm.Name()+"#bigval"] = ex.p.Select(ex.regionAt("gf:bigval", 0), ex.inputs["in:"+prm.Name()])
+			}
 			continue
 		}
 		sT, ok := derefStruct(pt.Elem())
